@@ -31,19 +31,19 @@ import (
 )
 
 type Sub struct {
-	Name     string `json:"name"`     // label in the evidence
-	Run      string `json:"run"`      // -test.run regexp
-	Quick    int    `json:"quick"`    // total rapid checks, quick tier (0 = not run in quick)
-	Thorough int    `json:"thorough"` // total rapid checks, thorough tier
-	QShards  int    `json:"qshards"`
-	TShards  int    `json:"tshards"`
-	Race     bool   `json:"race"`     // build with -race
-	Fuzz     string `json:"fuzz"`     // native fuzz target (thorough only)
-	FuzzSecs int    `json:"fuzzsecs"` // native fuzz duration
-	Steps    int    `json:"steps"`    // -rapid.steps
-	NoRapid  bool   `json:"norapid"`  // plain test: VERIF_N carries the count
-	CrashIsViolation bool `json:"crash_is_violation"` // a crash of the test process while a case runs is a verdict (the case is in current.<shard>.json)
-	MemLimitMB int  `json:"mem_limit_mb"` // ulimit -v for the job
+	Name             string `json:"name"`     // label in the evidence
+	Run              string `json:"run"`      // -test.run regexp
+	Quick            int    `json:"quick"`    // total rapid checks, quick tier (0 = not run in quick)
+	Thorough         int    `json:"thorough"` // total rapid checks, thorough tier
+	QShards          int    `json:"qshards"`
+	TShards          int    `json:"tshards"`
+	Race             bool   `json:"race"`               // build with -race
+	Fuzz             string `json:"fuzz"`               // native fuzz target (thorough only)
+	FuzzSecs         int    `json:"fuzzsecs"`           // native fuzz duration
+	Steps            int    `json:"steps"`              // -rapid.steps
+	NoRapid          bool   `json:"norapid"`            // plain test: VERIF_N carries the count
+	CrashIsViolation bool   `json:"crash_is_violation"` // a crash of the test process while a case runs is a verdict (the case is in current.<shard>.json)
+	MemLimitMB       int    `json:"mem_limit_mb"`       // ulimit -v for the job
 }
 
 type Prop struct {
